@@ -1,7 +1,7 @@
 (** Proofs for Model/MT.v: the generator state is always 624 words below 2^32 (seeding,
     regeneration, every draw), ranges of random() / getrandbits / randrange / choices, and the
     shape of the board generated from the Mersenne Twister. *)
-From Coq Require Import String ZArith NArith List Bool Lia PrimFloat.
+From Coq Require Import String ZArith NArith List Bool Lia QArith PrimFloat.
 From CR Require Import Model.Num Model.Outcome Model.Params Model.MT Proofs.ParamsP.
 Import ListNotations.
 Local Open Scope N_scope.
@@ -293,6 +293,69 @@ Proof.
     constructor; [|constructor]. apply word_lxor; [apply Forall_nth_word, WB|apply mix_word].
 Qed.
 
+(* [regen] is the C loop. In the loop every word is written once, in the order kk = 0..623, from
+   mt[kk], mt[kk+1] (not yet overwritten, except mt[0] for kk = 623) and a source word that is
+   still old for kk < 227 and already new afterwards. Entry by entry: *)
+Lemma nth_twist3 : forall xs ys zs i, (i < List.length (twist3 xs ys zs))%nat ->
+  nth i (twist3 xs ys zs) 0 = N.lxor (nth i zs 0) (mix (nth i xs 0) (nth i ys 0)).
+Proof.
+  induction xs; intros [|y ys] [|z zs] i H; simpl in H; try lia.
+  destruct i; [reflexivity|]. simpl. apply IHxs. lia.
+Qed.
+
+Lemma nth_skipn : forall n (l : list N) i d, nth i (skipn n l) d = nth (n + i) l d.
+Proof.
+  induction n; intros [|x l] i d; simpl; try reflexivity; [destruct i; reflexivity|apply IHn].
+Qed.
+
+Lemma nth_tl : forall (l : list N) i d, nth i (tl l) d = nth (S i) l d.
+Proof. intros [|x l] i d; simpl; [destruct i; reflexivity|reflexivity]. Qed.
+
+Lemma regen_spec : forall mt, List.length mt = mtN ->
+  let new := regen mt in
+  (forall kk, (kk < 227)%nat ->
+     nth kk new 0 = N.lxor (nth (kk + 397) mt 0) (mix (nth kk mt 0) (nth (kk + 1) mt 0))) /\
+  (forall kk, (227 <= kk < 623)%nat ->
+     nth kk new 0 = N.lxor (nth (kk - 227) new 0) (mix (nth kk mt 0) (nth (kk + 1) mt 0))) /\
+  nth 623 new 0 = N.lxor (nth 396 new 0) (mix (nth 623 mt 0) (nth 0 new 0)).
+Proof.
+  intros mt L. unfold regen.
+  set (A := twist3 mt (tl mt) (skipn 397 mt)).
+  set (B := twist3 (skipn 227 mt) (skipn 228 mt) A).
+  set (C := twist3 (skipn 454 mt) (skipn 455 mt) B).
+  set (D := N.lxor (nth 169 B 0) (mix (nth 623 mt 0) (hd 0 A))).
+  assert (LA : List.length A = 227%nat).
+  { unfold A. rewrite twist3_length, tl_length, skipn_length, L. reflexivity. }
+  assert (LB : List.length B = 227%nat).
+  { unfold B. rewrite twist3_length, !skipn_length, L, LA. reflexivity. }
+  assert (LC : List.length C = 169%nat).
+  { unfold C. rewrite twist3_length, !skipn_length, L, LB. reflexivity. }
+  assert (NA : forall i, (i < 227)%nat -> nth i (A ++ B ++ C ++ [D]) 0 = nth i A 0).
+  { intros i Hi. apply app_nth1. lia. }
+  assert (NB : forall i, (227 <= i < 454)%nat -> nth i (A ++ B ++ C ++ [D]) 0 = nth (i - 227) B 0).
+  { intros i Hi. rewrite app_nth2 by lia. rewrite LA. apply app_nth1. lia. }
+  assert (NC : forall i, (454 <= i < 623)%nat -> nth i (A ++ B ++ C ++ [D]) 0 = nth (i - 454) C 0).
+  { intros i Hi. rewrite app_nth2 by lia. rewrite LA. rewrite app_nth2 by lia. rewrite LB.
+    replace (i - 227 - 227)%nat with (i - 454)%nat by lia. apply app_nth1. lia. }
+  split; [|split].
+  - intros kk Hk. rewrite NA by assumption. unfold A at 1. rewrite nth_twist3 by (fold A; lia).
+    rewrite nth_skipn, nth_tl. replace (397 + kk)%nat with (kk + 397)%nat by lia.
+    replace (S kk) with (kk + 1)%nat by lia. reflexivity.
+  - intros kk Hk. destruct (Nat.lt_ge_cases kk 454) as [H1|H1].
+    + rewrite NB by lia. rewrite NA by lia. unfold B at 1. rewrite nth_twist3 by (fold B; lia).
+      rewrite !nth_skipn. replace (227 + (kk - 227))%nat with kk by lia.
+      replace (228 + (kk - 227))%nat with (kk + 1)%nat by lia. reflexivity.
+    + rewrite NC by lia. rewrite NB by lia. unfold C at 1. rewrite nth_twist3 by (fold C; lia).
+      rewrite !nth_skipn. replace (454 + (kk - 454))%nat with kk by lia.
+      replace (455 + (kk - 454))%nat with (kk + 1)%nat by lia.
+      replace (kk - 227 - 227)%nat with (kk - 454)%nat by lia. reflexivity.
+  - rewrite (NB 396%nat) by lia. rewrite (NA 0%nat) by lia.
+    rewrite app_nth2 by lia. rewrite LA. rewrite app_nth2 by lia. rewrite LB.
+    rewrite app_nth2 by lia. rewrite LC.
+    change (623 - 227 - 227 - 169)%nat with 0%nat. change (396 - 227)%nat with 169%nat.
+    cbn [nth]. unfold D. destruct A; reflexivity.
+Qed.
+
 Lemma temper_word : forall y, word y -> word (temper y).
 Proof.
   intros y H. unfold temper.
@@ -337,6 +400,18 @@ Lemma random_ok : forall st, state_ok st -> state_ok (snd (random st)).
 Proof.
   intros st H. unfold random. pose proof (random_ab_ok st H) as R.
   destruct (random_ab st) as [[a b] st']. simpl. tauto.
+Qed.
+
+(* the exact value of random(): (a * 2^26 + b) / 2^53, a rational in [0, 1) *)
+Definition random_Q (st : mtstate) : Q :=
+  let '(a, b, _) := random_ab st in Qmake (Z.of_N (ab_num a b)) 9007199254740992.
+
+Lemma random_Q_range : forall st, state_ok st -> (0 <= random_Q st /\ random_Q st < 1)%Q.
+Proof.
+  intros st H. unfold random_Q. pose proof (random_ab_ok st H) as R.
+  destruct (random_ab st) as [[a b] st']. destruct R as [_ [_ [R _]]].
+  change (2 ^ 53) with 9007199254740992 in R.
+  unfold Qle, Qlt. cbn [Qnum Qden]. split; lia.
 Qed.
 
 (** * getrandbits, _randbelow, randrange *)
@@ -503,29 +578,39 @@ Lemma row_tiles_ok : forall W m p st, state_ok st ->
   let '(rs, ts, st') := row_tiles_mt W m p st in
   List.length rs = W /\ List.length ts = W /\ Forall (fun t => t <= 1) ts /\ state_ok st'.
 Proof.
-  induction W; intros m p st H; simpl; [repeat split; [constructor|assumption]|].
-  pose proof (tile_mt_ok m p st H) as T. destruct (tile_mt m p st) as [[r t] st1]. destruct T as [T S1].
-  pose proof (IHW m p st1 S1) as R. destruct (row_tiles_mt W m p st1) as [[rs ts] st2].
-  destruct R as [A [B [C D]]]. simpl. repeat split; try lia; try assumption. constructor; assumption.
+  induction W; intros m p st H; cbn [row_tiles_mt].
+  - split; [reflexivity|split; [reflexivity|split; [constructor|assumption]]].
+  - pose proof (tile_mt_ok m p st H) as T. destruct (tile_mt m p st) as [[r t] st1]. destruct T as [T S1].
+    pose proof (IHW m p st1 S1) as R. destruct (row_tiles_mt W m p st1) as [[rs ts] st2].
+    destruct R as [A [B [C D]]]. cbn [List.length].
+    split; [now rewrite A|split; [now rewrite B|split; [constructor; assumption|assumption]]].
 Qed.
 
 Definition zgrid (L W : nat) (g : list (list Z)) : Prop :=
   List.length g = L /\ forall row, In row g -> List.length row = W.
 
+Lemma grid_cons : forall L W (okv : nat -> Prop) row g,
+  List.length row = W -> Forall okv row -> grid L W okv g -> grid (S L) W okv (row :: g).
+Proof.
+  intros L W okv row g A B [G1 G2]. split; [simpl; now rewrite G1|].
+  intros r [<-|I]; [split; assumption|apply G2; assumption].
+Qed.
+
+Lemma grid_nil : forall W (okv : nat -> Prop), grid 0 W okv [].
+Proof. intros. split; [reflexivity|intros r []]. Qed.
+
 Lemma grid_tiles_ok : forall L W m p st, state_ok st ->
   let '(rg, tg, st') := grid_tiles_mt L W m p st in
   zgrid L W rg /\ grid L W (fun t => t <= 1) tg /\ state_ok st'.
 Proof.
-  induction L; intros W m p st H; simpl.
-  - repeat split; try assumption; intros row [].
+  induction L; intros W m p st H; cbn [grid_tiles_mt].
+  - split; [split; [reflexivity|intros r []]|split; [apply grid_nil|assumption]].
   - pose proof (row_tiles_ok W m p st H) as R. destruct (row_tiles_mt W m p st) as [[rs ts] st1].
     destruct R as [A [B [C S1]]].
     pose proof (IHL W m p st1 S1) as G. destruct (grid_tiles_mt L W m p st1) as [[rg tg] st2].
-    destruct G as [[G1 G2] [[G3 G4] S2]].
-    repeat split; simpl; try lia; try assumption.
-    + intros row [<-|I]; [assumption|apply G2; assumption].
-    + destruct H0 as [<-|I]; [assumption|apply (G4 row I)].
-    + destruct H0 as [<-|I]; [assumption|apply (G4 row I)].
+    destruct G as [[G1 G2] [G3 S2]].
+    split; [|split; [apply grid_cons; assumption|assumption]].
+    split; [simpl; now rewrite G1|]. intros r [<-|I]; [assumption|apply G2; assumption].
 Qed.
 
 Lemma row_moves_ok : forall W fd st row st', state_ok st ->
@@ -534,21 +619,19 @@ Lemma row_moves_ok : forall W fd st row st', state_ok st ->
   (In 3 row <-> fd = true) /\ state_ok st'.
 Proof.
   intros W fd st row st' H E. unfold row_moves_mt in E. destruct fd.
-  - destruct (choices [0; 1; 2; 3] w_fd W st) as [[cs s1]| | |] eqn:C; simpl in E; try discriminate.
+  - destruct (choices [0; 1; 2; 3] w_fd W st) as [[cs s1]| | |] eqn:C; cbn [bind fst snd] in E; try discriminate.
     destruct (choices_ok _ _ _ _ _ _ H C) as [L1 [F1 S1]].
-    destruct (randrange0 (Z.of_nat W) s1) as [[rr s2]| | |] eqn:R; simpl in E; try discriminate.
+    destruct (randrange0 (Z.of_nat W) s1) as [[rr s2]| | |] eqn:R; cbn [bind fst snd] in E; try discriminate.
     injection E as <- <-. destruct (randrange0_ok _ _ _ _ S1 R) as [RR S2].
-    repeat split; try assumption.
-    + now rewrite set_nth_length.
+    split; [now rewrite set_nth_length|]. split; [|split; [|assumption]].
     + apply set_nth_forall; [lia|]. eapply Forall_impl; [|exact F1].
       simpl. intros a [<-|[<-|[<-|[<-|[]]]]]; lia.
-    + intros _. apply set_nth_in. lia.
+    + split; [reflexivity|]. intros _. apply set_nth_in. lia.
   - destruct (choices_ok _ _ _ _ _ _ H E) as [L1 [F1 S1]].
-    repeat split; try assumption.
+    split; [assumption|]. split; [|split; [|assumption]].
     + eapply Forall_impl; [|exact F1]. simpl. intros a [<-|[<-|[<-|[]]]]; lia.
-    + intros I. rewrite Forall_forall in F1. specialize (F1 3 I). simpl in F1.
+    + split; [|discriminate]. intros I. rewrite Forall_forall in F1. specialize (F1 3 I). simpl in F1.
       destruct F1 as [F|[F|[F|[]]]]; discriminate.
-    + discriminate.
 Qed.
 
 Lemma moves_ok : forall L W fd st g st', state_ok st ->
@@ -556,17 +639,14 @@ Lemma moves_ok : forall L W fd st g st', state_ok st ->
   grid L W (fun a => a < (if fd then 4 else 3)) g /\
   (forall row, In row g -> (In 3 row <-> fd = true)) /\ state_ok st'.
 Proof.
-  induction L; intros W fd st g st' H E; simpl in E.
-  - injection E as <- <-. repeat split; try assumption; intros row [].
-  - destruct (row_moves_mt W fd st) as [[row s1]| | |] eqn:R; simpl in E; try discriminate.
+  induction L; intros W fd st g st' H E; cbn [moves_mt] in E.
+  - injection E as <- <-. split; [apply grid_nil|split; [intros r []|assumption]].
+  - destruct (row_moves_mt W fd st) as [[row s1]| | |] eqn:R; cbn [bind fst snd] in E; try discriminate.
     destruct (row_moves_ok _ _ _ _ _ H R) as [A [B [C S1]]].
-    destruct (moves_mt L W fd s1) as [[g1 s2]| | |] eqn:M; simpl in E; try discriminate.
-    injection E as <- <-. destruct (IHL _ _ _ _ _ S1 M) as [[G1 G2] [G3 S2]].
-    repeat split; simpl; try lia; try assumption.
-    + destruct H0 as [<-|I]; [assumption|apply (G2 row0 I)].
-    + destruct H0 as [<-|I]; [assumption|apply (G2 row0 I)].
-    + destruct H0 as [<-|I]; [apply C|apply (G3 row0 I)].
-    + destruct H0 as [<-|I]; [apply C|apply (G3 row0 I)].
+    destruct (moves_mt L W fd s1) as [[g1 s2]| | |] eqn:M; cbn [bind fst snd] in E; try discriminate.
+    injection E as <- <-. destruct (IHL _ _ _ _ _ S1 M) as [G1 [G3 S2]].
+    split; [apply grid_cons; assumption|]. split; [|assumption].
+    intros r [<-|I]; [exact C|apply G3; assumption].
 Qed.
 
 (* the shape the property asks for, for boards whose rewards are Python ints *)
